@@ -1133,7 +1133,9 @@ impl<'tcx> Dumper<'tcx> {
         }
         let d = tcx.try_destructure_mir_constant_for_user_output(val, t)?;
         let mut fields = vec![];
+        let mut tys = vec![];
         for (fv, fty) in d.fields.iter() {
+            tys.push(J::Int(self.ty(*fty) as i128));
             match self.const_value(*fv, *fty) {
                 Some(j) => fields.push(j),
                 None => fields.push(J::obj(vec![("opaque", J::s("field"))])),
@@ -1142,6 +1144,7 @@ impl<'tcx> Dumper<'tcx> {
         Some(J::obj(vec![
             ("variant", J::opt(d.variant.map(|v| J::Int(v.as_u32() as i128)))),
             ("fields", J::Arr(fields)),
+            ("tys", J::Arr(tys)),
         ]))
     }
 
